@@ -25,6 +25,9 @@ def run_bounded(pid, tier):
     extra = corpus.classic() + corpus.rule_orders() + corpus.random_grammars(
         1200 if params["tier"] == "quick" else 12000, n_prods=(4, 5, 6))
     items = [(pid, g, params) for g in gs] + [(pid, g, dict(params, max_len=min(params["max_len"], 4))) for g in extra]
+    items += [(pid, g, dict(params, max_len=5 if tier == "quick" else 6)) for g in corpus.nullable_lists()]
+    items += [(pid, g, dict(params, alphabet="abcd", max_len=3 if tier == "quick" else 4, layout_len=2))
+              for g in corpus.lookahead_chains()]
     # lexical overlap between terminals: the same grammar shapes over overlapping recognisers
     ov = dict(params)
     ov["n_prods"] = 3 if tier == "quick" else 3
@@ -35,6 +38,12 @@ def run_bounded(pid, tier):
         o["max_len"] = params["max_len"] if tier == "thorough" else 4
         o["layout_len"] = 2
         items.extend((pid, g, o) for g in ogs)
+    # a terminal that is a proper prefix of the other and can follow itself ('a' / 'aa'): runs of a's with blanks
+    o = dict(ov, termset="prefix2", alphabet="a ", max_len=6 if tier == "quick" else 8, layout_len=0)
+    items.extend((pid, g, o) for g in ogs if {"a", "b"} <= {x for _, r in g for x in r})
+    # layout given by a LAYOUT rule (blanks and '#') instead of the ws parameter
+    lr = dict(params, layout_rule=True, max_len=min(params["max_len"], 4), layout_len=2)
+    items.extend((pid, g, lr) for g in corpus.classic() + list(ogs)[::7 if tier == "quick" else 2])
     results = fw.pmap(glr_grammar_worker, items)
     rule = RULES["C01"].replace("n_p", str(params["n_prods"])).replace("max_len", str(params["max_len"]))
     out = fw.merge_worker_results(results, rule)
